@@ -662,8 +662,13 @@ func (ep *IstioEndpoint) FirstAddressOrNil() string {
 }
 
 // Key returns a function suitable for usage to distinguish this IstioEndpoint from another
+// The endpoint port and the network are part of it: one workload may listen on two ports of one service port
+// name at one address (two WorkloadEntries of one workload on a host), and one address may exist in two networks
+// (auto registered WorkloadEntries of one group). These are different members of a service, and the endpoint
+// shard diff (endpointUpdateRequiresPush) must be able to tell them apart.
 func (ep *IstioEndpoint) Key() string {
-	return ep.Namespace + "/" + ep.WorkloadName + "/" + ep.FirstAddressOrNil() + "/" + ep.ServicePortName
+	return ep.Namespace + "/" + ep.WorkloadName + "/" + ep.FirstAddressOrNil() + "/" + ep.ServicePortName +
+		"/" + strconv.Itoa(int(ep.EndpointPort)) + "/" + string(ep.Network)
 }
 
 // EndpointMetadata represents metadata set on Envoy LbEndpoint used for telemetry purposes.
